@@ -196,6 +196,7 @@ Definition audited : list audit := [
   A "object" "state.go" "Environment.BaseInfo" "make" 4 U "make with lengths of the token tables";
   A "object" "state.go" "Environment.Delete" "index" 1 U "map lookup";
   A "object" "state.go" "Environment.Get" "index" 1 U "map lookup";
+  A "object" "state.go" "Environment.getStored" "index" 1 U "map lookup";
   A "object" "state.go" "Environment.Info" "index" 1 U "allKeys[e.depth-1] with allKeys = make(depth of the starting env); NewFunctionEnvironment sets depth = outer.depth+1, so depths strictly decrease along outer";
   A "object" "state.go" "Environment.Info" "make" 2 U "make(depth), make(len(store))";
   A "object" "state.go" "Environment.IsRef" "index" 1 U "map lookup";
